@@ -577,4 +577,53 @@ theorem stageCtHashes_frame (E : Env H) (cfg : Cfg) (pick : List Nat → Nat) (s
   repeat' split
   all_goals exact ⟨rfl, rfl, rfl⟩
 
+/-- after an accepted `_satisfy_share_hash_tree` that had hashes to fetch, the leaf the share sent for itself is
+    stored in the node's share hash tree -/
+theorem stageShareTree_accept_leaf {E : Env H} {cfg : Cfg} (hstrict : StrictPresence E.ops cfg)
+    (pick : List Nat → Nat) (cap : Cap H) (shnum : Nat) (v : View H) (nd : Node H)
+    (hL : ¬ (firstLeafNum cap.n + shnum ≥ nd.shareTree.length))
+    (hne : (neededHashes nd.shareTree (firstLeafNum cap.n + shnum)).isEmpty = false)
+    {w : H} (hleaf : (firstLeafNum cap.n + shnum, w) ∈ dictOf v.shareHashes)
+    (hacc : (stageShareTree E cfg pick cap shnum v nd).1 = none) :
+    get (stageShareTree E cfg pick cap shnum v nd).2.shareTree (firstLeafNum cap.n + shnum) = some w := by
+  unfold stageShareTree at hacc ⊢
+  rw [if_neg hL] at hacc ⊢
+  rw [if_neg (by rw [hne]; simp)] at hacc ⊢
+  by_cases he : v.shareHashes.isEmpty = true
+  · rw [if_pos he] at hacc; simp at hacc
+  · rw [if_neg he] at hacc ⊢
+    simp only at hacc ⊢
+    by_cases hany : (dictOf v.shareHashes).any (fun e => decide (e.1 ≥ nd.shareTree.length)) = true
+    · rw [if_pos hany] at hacc; simp at hacc
+    · rw [if_neg hany] at hacc ⊢
+      cases hsr : setHashes E.ops cfg pick (firstLeafNum cap.n) nd.shareTree (dictOf v.shareHashes) [] with
+      | mk o t' =>
+        rw [hsr] at hacc
+        cases o with
+        | ok =>
+          simp only
+          obtain ⟨new, st, hm, hres, e⟩ := setHashes_ok hsr
+          have hnew : new = dictOf v.shareHashes := by simp [mergeLeaves] at hm; exact hm.symm
+          subst hnew
+          rw [← e]
+          exact tryBody_stored hstrict pick _ _ hres _ w hleaf
+        | badHash => simp at hacc
+        | notEnough => simp at hacc
+        | indexError => simp at hacc
+        | internal => simp at hacc
+
+/-- `set_block_hash_root` on a share seen for the first time stores the validated share hash leaf as the root -/
+theorem stageBlockRoot_fresh (E : Env H) (cfg : Cfg) (pick : List Nat → Nat) (cap : Cap H) (shnum : Nat) (nd : Node H)
+    {u : UEB H} {sz : Sizes} {r : H} (hk : nd.known = some (u, sz))
+    (hbt : nd.blockTree shnum sz.numSegs = newTree H sz.numSegs)
+    (hr : get nd.shareTree (firstLeafNum cap.n + shnum) = some r) :
+    stageBlockRoot E cfg pick cap shnum nd = (none, nd.setBlockTree shnum (seed (newTree H sz.numSegs) r)) := by
+  unfold stageBlockRoot
+  rw [hk]
+  simp only
+  rw [hbt, get_newTree]
+  simp only [truthyOpt]
+  rw [hr]
+  simp
+
 end Tahoe.Integrity
